@@ -82,16 +82,16 @@ var (
 		Methods:  allEngineMethods,
 		MinRules: 1, MaxRules: 6, SalSpan: 2,
 		Secs: map[int]int{SecY: 2, SecCall: 2, SecAsgCall: 1, SecAsgKind: 2, SecDiv: 2, SecIdx: 2, SecNil: 2, SecUnknown: 2, SecArg: 2,
-			SecIfKind: 2, SecIfIdx: 2, SecIfNil: 2, SecElif: 2, SecForKind: 2, SecForStep: 1, SecUnb: 1, SecUnbCont: 1, SecConc: 2, SecIfCall: 2, SecForRange: 2, SecMapIdx: 2, SecSetKind: 2, SecSetNil: 2, SecThreeNil: 2, SecIfThreeNil: 2, SecArgCount: 1, SecNilMapSet: 2, SecFuncCall: 2, SecIfFunc: 2, SecThreeSet: 2, SecFnArgKind: 2, SecFnArgCount: 1, SecLocStruct: 1, SecElifCall: 2, SecForAcc: 1, SecRangeGrow: 2, SecThreeSetLoc: 2},
+			SecIfKind: 2, SecIfIdx: 2, SecIfNil: 2, SecElif: 2, SecForKind: 2, SecForStep: 1, SecUnb: 1, SecUnbCont: 1, SecConc: 2, SecIfCall: 2, SecForRange: 2, SecMapIdx: 2, SecSetKind: 2, SecSetNil: 2, SecThreeNil: 2, SecIfThreeNil: 2, SecArgCount: 1, SecNilMapSet: 2, SecFuncCall: 2, SecIfFunc: 2, SecThreeSet: 2, SecFnArgKind: 2, SecFnArgCount: 1, SecLocStruct: 1, SecElifCall: 2, SecForAcc: 1, SecRangeGrow: 2, SecThreeSetLoc: 2, SecForCall: 2, SecStrayBreak: 1},
 		MaxSecs: 4, Rets: []int{RetNone, RetNestedV, RetKind, RetTopKind, RetTop, RetUnexp},
 		FaultPct: 75, GatePct: 10, RetPct: 50, MinCalls: 4, MaxCalls: 12, UnknownNamePct: 15, BadNMPct: 15, LongHistPct: 3,
 	}
 	ProfC11 = &Profile{
 		Methods:  allEngineMethods,
 		MinRules: 1, MaxRules: 6, SalSpan: 2,
-		Secs:    map[int]int{SecY: 2, SecCall: 2, SecAsgKind: 1},
+		Secs:    map[int]int{SecY: 2, SecCall: 2, SecAsgKind: 1, SecStrayBreak: 1, SecForCall: 1},
 		MaxSecs: 2, Rets: []int{RetNone, RetNestedV, RetNestedV, RetNestedB, RetLoop, RetTop, RetTopB, RetKind, RetTopKind, RetElse, RetReq, RetUnexp, RetForRange, RetElseIf, RetBreak, RetContinue},
-		FaultPct: 45, FaultKinds: map[int]bool{SecCall: true, SecAsgKind: true, -1: true}, GatePct: 10, RetPct: 65, MinCalls: 4, MaxCalls: 14, UnknownNamePct: 15, BadNMPct: 5, EvolvePct: 20,
+		FaultPct: 45, FaultKinds: map[int]bool{SecCall: true, SecAsgKind: true, SecForCall: true, -1: true}, GatePct: 10, RetPct: 65, MinCalls: 4, MaxCalls: 14, UnknownNamePct: 15, BadNMPct: 5, EvolvePct: 20,
 	}
 	ProfC12 = &Profile{
 		Methods:  selectedMethods,
@@ -103,7 +103,7 @@ var (
 	ProfC13 = &Profile{
 		Methods:  []int{MDAG},
 		MinRules: 1, MaxRules: 6, SalSpan: 2,
-		Secs:    map[int]int{SecY: 4, SecCall: 2, SecDiv: 1, SecIfKind: 1, SecNil: 1, SecIfIdx: 2, SecFnArgKind: 1, SecElifCall: 2},
+		Secs:    map[int]int{SecY: 4, SecCall: 2, SecDiv: 1, SecIfKind: 1, SecNil: 1, SecIfIdx: 2, SecFnArgKind: 1, SecElifCall: 2, SecForCall: 2},
 		MaxSecs: 3, Rets: []int{RetNone, RetNone, RetNestedV, RetTop, RetTopKind, RetKind, RetUnexp},
 		FaultPct: 50, GatePct: 55, RetPct: 50, MinCalls: 4, MaxCalls: 14, UnknownNamePct: 40, EvolvePct: 20,
 	}
@@ -285,7 +285,7 @@ func init() {
 		FinalProbe: true, WaiterRound: true, NilTagPct: 40, Admins: 1, MaxMgmt: 3, MgmtKinds: []int{OpClear, OpClear, OpFull, OpIncr}, InvalidPct: 10, Restore: true, BigPools: true, Flood: true,
 		Oracle: OracleC17})})
 	register(&PropDef{ID: "C06", Clauses: set(clIsolation, clContain), Run: w2(&W2Opt{Prof: ProfC06, Methods: cat(allEngineMethods, []int{MPoolEM, MPoolEMMulti, MPoolSelEM}), MaxClients: 5, MaxReqs: 5,
-		OptPct: 50, Prelude: true, Oracle: OracleC06})})
+		OptPct: 50, Prelude: true, ThinPct: 12, Oracle: OracleC06})})
 	register(&PropDef{ID: "C07", Clauses: set(clVersions, clContain), Run: w2(&W2Opt{Prof: ProfC07, Methods: cat(allEngineMethods, []int{MPoolEMMulti, MPoolSelEM, MPoolEM, MPoolEM}), MaxClients: 4, MaxReqs: 4,
 		Admins: 2, MaxMgmt: 3, MgmtKinds: []int{OpFull, OpIncr, OpIncr, OpRemove}, InvalidPct: 15, UpdFromRule: true, Oracle: OracleC07})})
 	register(&PropDef{ID: "C16", Clauses: set(clPoolMgmt, clSpec, clContain, []string{"result-map"}), Run: func(plan, sched *simrt.Source, trace bool) *RunOut {
